@@ -123,7 +123,7 @@ def rule_frames(rep, idx):
         for size_case in ('zero', 'positive'):
             X = xmodel.XModel(idx, c01.CodeGenModel(idx).hooks)
             I = X.I
-            frame = I.construct('xcmp::Frame', [('str', '_exitlab')])
+            frame = xmodel.make_frame(I, idx, '_exitlab')
             frame.fields['offset'] = const(64, False, 0)
             frame.fields['size'] = const(64, False, 0) if size_case == 'zero' else I.sym('S', 64, False, 1, 1 << 16)
             sym = I.construct('xcmp::Symbol', [const(32, True, stype[kind]), None, ('str', ''), ('str', 'f')])
@@ -183,7 +183,7 @@ def rule_frames(rep, idx):
     # lowering of frame-base-relative accesses: sp-relative offset = size - 1 + fb offset
     X = xmodel.XModel(idx, c01.CodeGenModel(idx).hooks)
     I = X.I
-    frame = I.construct('xcmp::Frame', [('str', '_x')])
+    frame = xmodel.make_frame(I, idx, '_x')
     frame.fields['size'] = I.sym('S', 64, False, 1, 1 << 16)
     atok = idx.enum('hexasm::Token')
     off = I.sym('O', 32, True, -64, 64)
